@@ -614,6 +614,15 @@ def _set_value_in_attrset(
     attrpath_leaf = _find_attrpath_leaf(target_set, segments)
     attrpath_root = _find_attrpath_root(target_set, segments[0])
     if attrpath_leaf is not None:
+        if isinstance(attrpath_leaf.value, Identifier):
+            # `a.b = name;` is a reference like any other: write its definition.
+            if _assign_through_identifier(attrpath_leaf.value):
+                return
+            if let_bindings:
+                for outer in let_bindings:
+                    if outer.name == attrpath_leaf.value.name:
+                        _write_through(outer)
+                        return
         attrpath_leaf.value = value_expr
         return
 
